@@ -130,6 +130,11 @@ func (t *tree) build(root string) error {
 			os.WriteFile(filepath.Join(p, "zzz_blank.toml"), []byte("  \n\n\t\n"), 0o644)
 			os.WriteFile(filepath.Join(p, "000_comment_only.toml"), []byte("# nothing yet\n"), 0o644)
 		}
+		if j == "hidden" || j == "all" {
+			// editor lock files / AppleDouble copies: they sort before every real configuration of the directory
+			os.WriteFile(filepath.Join(p, "._exact.toml"), []byte("\x00\x05\x16\x07 resource fork"), 0o644)
+			os.WriteFile(filepath.Join(p, ".#0_default.toml"), []byte("user@host.1234"), 0o644)
+		}
 		if j == "upperbroken" || j == "all" {
 			os.WriteFile(filepath.Join(p, "BROKEN.TOML"), []byte("[[[["), 0o644)
 		}
@@ -309,7 +314,7 @@ func main() {
 	}
 	junks := []string{"none", "all"}
 	if *tier == "thorough" {
-		junks = []string{"none", "broken", "invalid", "txt", "nested", "upperbroken", "empty", "all"}
+		junks = []string{"none", "broken", "invalid", "txt", "nested", "upperbroken", "empty", "hidden", "all"}
 	}
 	// (1) all 2^8 presence combinations x identifier match x junk
 	for mask := 0; mask < 256; mask++ {
